@@ -42,7 +42,11 @@ def obligations(tier, kf):
     obs.append(Ob('p_relative', {'N': 2, 'D': 1}, 120).twin())
     obs.append(Ob('p_relative', {'N': 3, 'D': 2}, 300).mutant('relpath_ignores_submodule'))
     obs.append(Ob('p_relative', {'N': 3, 'D': 2}, 300).mutant('buildpath_not_rerooted'))
-    obs.append(Ob('e_exports', {'NO': 4 if q else 5}, 1500, desc='export stack histories'))
+    obs.append(Ob('e_exports', {'NO': 4}, 1500, desc='export stack histories of <= 4 operations'))
+    if not q:
+        for p0 in range(6):
+            obs.append(Ob('e_exports', {'NO': 5, 'P0': p0}, 4000,
+                          desc='export stack histories of exactly 5 operations, first op #%d' % p0))
     obs.append(Ob('e_exports', {'NO': 3}, 120).twin())
     obs.append(Ob('e_exports', {'NO': 4}, 600).mutant('exports_shared_dict'))
     for n in range(1, (3 if q else 4) + 1):
